@@ -1,28 +1,27 @@
 // TRUSTED PRELUDE (C16, dimension {D}): additions to prelude/euclid.rs used by the deviation / directed-distance units.
 // ASSUMED CONTRACTS ON DEPENDENCIES (nalgebra): every axiom below is a theorem of a real inner-product space;
+// they are NOT broadcast (scale/negation identities form matching loops): proofs invoke them explicitly.
 // engeom's own code is never modelled here.
 pub uninterp spec fn u_neg(u: UnitVec{D}) -> UnitVec{D};            // `-u` on Unit<SVector>
 pub open spec fn v_neg(v: Vector{D}) -> Vector{D} { v_scale(v, -1real) }
 
 // inner product: symmetric, bilinear
-pub broadcast axiom fn ax16_dot_sym(a: Vector{D}, b: Vector{D}) ensures #[trigger] v_dot(a, b) == v_dot(b, a);
-pub broadcast axiom fn ax16_dot_scale_r(a: Vector{D}, b: Vector{D}, s: real) ensures #[trigger] v_dot(a, v_scale(b, s)) == s * v_dot(a, b);
-pub broadcast axiom fn ax16_dot_scale_l(a: Vector{D}, b: Vector{D}, s: real) ensures #[trigger] v_dot(v_scale(a, s), b) == s * v_dot(a, b);
-pub broadcast axiom fn ax16_dot_add_r(a: Vector{D}, b: Vector{D}, c: Vector{D}) ensures #[trigger] v_dot(a, v_add(b, c)) == v_dot(a, b) + v_dot(a, c);
+pub axiom fn ax16_dot_sym(a: Vector{D}, b: Vector{D}) ensures v_dot(a, b) == v_dot(b, a);
+pub axiom fn ax16_dot_scale_r(a: Vector{D}, b: Vector{D}, s: real) ensures v_dot(a, v_scale(b, s)) == s * v_dot(a, b);
+pub axiom fn ax16_dot_scale_l(a: Vector{D}, b: Vector{D}, s: real) ensures v_dot(v_scale(a, s), b) == s * v_dot(a, b);
+pub axiom fn ax16_dot_add_r(a: Vector{D}, b: Vector{D}, c: Vector{D}) ensures v_dot(a, v_add(b, c)) == v_dot(a, b) + v_dot(a, c);
 // |v|^2 = v.v
-pub broadcast axiom fn ax16_norm_sq(v: Vector{D}) ensures #[trigger] v_dot(v, v) == v_norm(v) * v_norm(v);
+pub axiom fn ax16_norm_sq(v: Vector{D}) ensures v_dot(v, v) == v_norm(v) * v_norm(v);
 // a - b = -(b - a)
-pub broadcast axiom fn ax16_sub_anti(a: Point{D}, b: Point{D}) ensures #[trigger] p_sub(a, b) == v_scale(p_sub(b, a), -1real);
+pub axiom fn ax16_sub_anti(a: Point{D}, b: Point{D}) ensures p_sub(a, b) == v_scale(p_sub(b, a), -1real);
 // a + (b - a) = b ;  1*v = v ; (s*t)*v = s*(t*v)
-pub broadcast axiom fn ax16_add_sub(a: Point{D}, b: Point{D}) ensures #[trigger] p_add(a, p_sub(b, a)) == b;
-pub broadcast axiom fn ax16_scale_one(v: Vector{D}) ensures #[trigger] v_scale(v, 1real) == v;
-pub broadcast axiom fn ax16_scale_scale(v: Vector{D}, s: real, t: real) ensures #[trigger] v_scale(v_scale(v, s), t) == v_scale(v, s * t);
+pub axiom fn ax16_add_sub(a: Point{D}, b: Point{D}) ensures p_add(a, p_sub(b, a)) == b;
+pub axiom fn ax16_scale_one(v: Vector{D}) ensures v_scale(v, 1real) == v;
+pub axiom fn ax16_scale_scale(v: Vector{D}, s: real, t: real) ensures v_scale(v_scale(v, s), t) == v_scale(v, s * t);
 // the negated unit vector is the unit vector scaled by -1
-pub broadcast axiom fn ax16_uneg(u: UnitVec{D}) ensures #[trigger] u_vec(u_neg(u)) == v_scale(u_vec(u), -1real);
+pub axiom fn ax16_uneg(u: UnitVec{D}) ensures u_vec(u_neg(u)) == v_scale(u_vec(u), -1real);
 // normalisation: unit(w) = w / |w| for |w| > 0
-pub broadcast axiom fn ax16_unit_def(w: Vector{D}) requires v_norm(w) > 0real ensures #[trigger] u_vec(v_unit(w)) == v_scale(w, 1real / v_norm(w));
-pub broadcast group c16_euclid{D}_axioms { ax16_dot_sym, ax16_dot_scale_r, ax16_dot_scale_l, ax16_dot_add_r, ax16_norm_sq, ax16_sub_anti,
-    ax16_add_sub, ax16_scale_one, ax16_scale_scale, ax16_uneg, ax16_unit_def }
+pub axiom fn ax16_unit_def(w: Vector{D}) requires v_norm(w) > 0real ensures u_vec(v_unit(w)) == v_scale(w, 1real / v_norm(w));
 
 // ---- operators / methods of the stand-ins that engeom uses in these files
 impl NegSpecImpl for UnitVec{D} {
@@ -66,3 +65,5 @@ impl Vector{D} {
     #[verifier::external_body]
     pub fn dot_unit(&self, o: &UnitVec{D}) -> (r: f64) ensures rv(r) == v_dot(*self, u_vec(*o)) { unimplemented!() }
 }
+// |s*v| = |s| |v|
+pub axiom fn ax16_norm_scale(v: Vector{D}, s: real) ensures v_norm(v_scale(v, s)) == (if s >= 0real { s } else { -s }) * v_norm(v);
